@@ -9,6 +9,8 @@ MessageId = j1939.MessageId
 PGN = j1939.ParameterGroupNumber
 Name = j1939.Name
 
+_REUSED = {'m': MessageId(can_id=0), 'g': PGN()}
+
 
 def check_id(x, acc, sc):
     m = MessageId(can_id=x)
@@ -34,6 +36,26 @@ def check_id(x, acc, sc):
     g2 = PGN(dp, pf, ps)
     if g2.value != (pgn18 & 0x1FFFF):
         acc.violation("PGN built from fields has the wrong value", sc, None, "dp=%d pf=%d ps=%d -> %r" % (dp, pf, ps, g2.value))
+        return
+    # the same on objects that are re-used over the whole enumeration (a history on one object: whatever was read from it
+    # for the previous identifier must not show through), and after assigning to a public field
+    mr, gr = _REUSED['m'], _REUSED['g']
+    mr.can_id = x
+    if (mr.priority, mr.parameter_group_number, mr.source_address, mr.can_id) != (prio, pgn18, sa, x):
+        acc.violation("identifier parse on a re-used MessageId object: wrong field", sc, None,
+                      "can_id=%08X -> prio=%r pgn=%r sa=%r id=%08X" % (x, mr.priority, mr.parameter_group_number, mr.source_address, mr.can_id))
+        return
+    gr.from_message_id(mr)
+    if (gr.data_page, gr.pdu_format, gr.pdu_specific) != (dp, pf, ps) or gr.value != (pgn18 & 0x1FFFF) \
+            or bool(gr.is_pdu1_format) != (pf < 240) or bool(gr.is_pdu2_format) != (pf >= 240):
+        acc.violation("PGN fields / PDU classification disagree with the numeric value on a re-used object", sc, None,
+                      "can_id=%08X pgn=%05X -> dp=%r pf=%r ps=%r value=%r pdu1=%r" % (x, pgn18, gr.data_page, gr.pdu_format, gr.pdu_specific, gr.value, gr.is_pdu1_format))
+        return
+    gr.pdu_specific = ps ^ 0x5A
+    gr.pdu_format = pf ^ 0xF0
+    if gr.value != ((dp << 16) | ((pf ^ 0xF0) << 8) | (ps ^ 0x5A)) or bool(gr.is_pdu1_format) != ((pf ^ 0xF0) < 240):
+        acc.violation("PGN value / classification does not follow an assignment to its fields", sc, None,
+                      "can_id=%08X pgn=%05X then pf=%02X ps=%02X -> value=%r pdu1=%r" % (x, pgn18, pf ^ 0xF0, ps ^ 0x5A, gr.value, gr.is_pdu1_format))
 
 
 def id_worker(item):
@@ -88,6 +110,8 @@ def name_values(seed):
             vals.add((1 << i) | (1 << j))
     return sorted(vals)
 
+_REUSED_NAME = [Name()]
+
 
 def check_name(v, acc, sc):
     exp = R.name_fields(v)
@@ -120,6 +144,17 @@ def check_name(v, acc, sc):
             acc.violation("NAME from %s: bytes are not the 8 little-endian bytes of the value" % how, sc, None,
                           "value=%016X -> %r" % (v, list(n.bytes)))
             return False
+    # one Name object re-used over the whole enumeration, alternately through the value and the bytes setter
+    nr = _REUSED_NAME[0]
+    if v & 1:
+        nr.value = v
+    else:
+        nr.bytes = R.name_bytes(v)
+    got = {k: int(getattr(nr, k)) for (k, _lo, _w) in R.NAME_FIELDS}
+    if got != exp or nr.value != ev or list(nr.bytes) != R.name_bytes(ev):
+        acc.violation("NAME set on a re-used object: fields / value / bytes disagree", sc, None,
+                      "value=%016X expected %r got %r value %X" % (v, exp, got, nr.value))
+        return False
     return True
 
 
@@ -211,7 +246,7 @@ def worker(item):
     return name_worker(item)
 
 
-RULE = ("identifier: quick = all 2^18 PGN values x 4 priorities x 8 source addresses + all 8x256 priority/source pairs "
+RULE = ("every identifier / NAME is also decoded into objects that are re-used over the whole enumeration (and the PGN object's fields are assigned to); identifier: quick = all 2^18 PGN values x 4 priorities x 8 source addresses + all 8x256 priority/source pairs "
         "x 13 boundary PGNs, thorough = all 2^29 identifiers; NAME: every value of every field up to 11 bits (21-bit "
         "field: 520 values incl. boundaries) over 5 backgrounds, all 1-bit, all 2-bit and all 63-bit-set values, each "
         "built from value / 8 LE bytes / fields; comparison on all ordered pairs of a boundary set; the arbitration itself on a real "
